@@ -1032,4 +1032,243 @@ theorem WeakD.quiet_pre {T : Int} {pre pre0 : List Obs} (h : WeakD T pre pre0) (
       · exact hd
     · exact ih (fun x hx => hq x (List.mem_cons_of_mem _ hx)) q0 hq0 hacc
 
+/-! ### a returned response is the first acceptable observation -/
+
+/-- For EVERY observation sequence in time order (any flags): a call that
+returns a response returns the first terminal observation, which is an
+acceptable response, at its instant; everything before it is quiet. -/
+theorem resp_first_acc {T n : Int} (hT : 0 < T) (v : List Obs) (H t : Int) (i : Nat) (ho : OrderedObs v)
+    (h : (runObs T n v H).ret = some (t, .resp i)) :
+    ∃ pre o post, v = pre ++ o :: post ∧ Quiet pre ∧ o.kind = .acc ∧ o.tag = i ∧ o.t = t := by
+  cases hf : v.find? isTerminal with
+  | none =>
+    exfalso
+    have hq := (first_terminal (n := n) hT v H ho).2 hf
+    rcases quiet_ret (n := n) hT v H hq with hr | ⟨t', hr⟩ <;> rw [hr] at h <;> simp at h
+  | some o =>
+    obtain ⟨hto, pre, post, heq, hpre⟩ := List.find?_eq_some_iff_append.1 hf
+    subst heq
+    have hq : Quiet pre := fun p hp => (isTerminal_false_iff p).1 (by simpa using hpre p hp)
+    have hle : ∀ p ∈ pre, p.t ≤ o.t := fun p hp =>
+      (List.pairwise_append.1 ho.2).2.2 p hp o (List.mem_cons_self ..)
+    have h0 : 0 ≤ o.t := ho.1 o (by simp)
+    refine ⟨pre, o, post, rfl, hq, ?_⟩
+    have hqi := runFrom_quiet hT pre hq _ (begin_quiet (T := T) n)
+    unfold runObs at h
+    rw [runFrom_append, runFrom_cons] at h
+    cases hst : runFrom n (begin T n) pre with
+    | done txs t' out =>
+      exfalso
+      rw [hst] at hqi h
+      rw [stepObs_done, runFrom_done, finish_done, hqi.1] at h
+      simp at h
+    | waiting w =>
+      rw [hst] at hqi h
+      obtain ⟨g, _⟩ := hqi
+      have hclk : w.clk ≤ o.t := runFrom_clk n o.t pre hle _ (begin_clk T n o.t h0) w hst
+      have hmax : max o.t w.clk = o.t := Int.max_eq_left hclk
+      rw [stepObs_waiting] at h
+      rcases advance_spec hT (max o.t w.clk) o.afterTimer _ w g (advanceFuel_ok _ _) with
+        ⟨w', hw', _, _, _, _⟩ | ⟨hd, _, _, _⟩
+      · rw [hw'] at h
+        rcases (isTerminal_iff o).1 hto with hk | hk | hk <;> rw [hk] at h <;> simp only at h <;>
+          rw [runFrom_done, finish_done] at h <;> simp at h
+        exact ⟨hk, h.2, by omega⟩
+      · exfalso
+        rw [hd] at h
+        simp only at h
+        rw [runFrom_done, finish_done] at h
+        simp at h
+
+/-- **Racing scripts: what can be returned.** For ANY script of datagram
+injections (any instants, any sync flags, bursts), every result the
+script-level model allows that is a response is an acceptable datagram of the
+script, returned at its effective instant, and every acceptable datagram
+injected before it fell exactly on a retransmission deadline
+`T·(2^(k+1) − 1)` (where the model lets it be lost to the try being torn
+down). -/
+theorem runCall_resp_first {T n : Int} (hT : 0 < T) (evs : List Event) (H : Int) (harr : ArrivalsOnly evs)
+    (r : Result) (hr : r ∈ runCall T n evs H) (t : Int) (i : Nat) (hret : r.ret = some (t, .resp i)) :
+    ∃ pre o post, scriptObs evs = pre ++ o :: post ∧ o.kind = .acc ∧ o.tag = i ∧ o.t = t ∧
+      ∀ q ∈ pre, q.kind = .acc → ∃ k : Nat, q.t = off T (k + 1) := by
+  obtain ⟨v, rfl, hv⟩ := runCall_views hT evs H harr r hr
+  have hw := hv.weakD
+  rw [groups_flatten] at hw
+  have hov := hw.ordered (scriptObs_ordered evs)
+  obtain ⟨pre, o, post, heq, hq, hk, htag, ht⟩ := resp_first_acc hT v H t i hov hret
+  obtain ⟨pre0, o0, post0, h0, hpre, ht0, htag0, hrel⟩ := WeakD.split pre o post hw heq
+  refine ⟨pre0, o0, post0, h0, ?_, by rw [← htag0, htag], by rw [← ht0, ht], hpre.quiet_pre hq⟩
+  rcases hrel with rfl | ⟨h1 | h1, _⟩
+  · exact hk
+  · rw [← h1]; exact hk
+  · rw [hk] at h1; cases h1
+
+/-! ### scripts on which nothing races: exactly one result -/
+
+theorem runCall_det {T n : Int} (hT : 0 < T) (evs : List Event) (H : Int) (harr : ArrivalsOnly evs)
+    (hn : ∀ g ∈ groups evs, g.2.1 = false ∨ ∀ k : Nat, g.1 ≠ off T (k + 1)) (r : Result)
+    (hr : r ∈ runCall T n evs H) : r = runObs T n (scriptObs evs) H := by
+  obtain ⟨v, rfl, hv⟩ := runCall_views hT evs H harr r hr
+  rw [hv.eq_of_noRace hn, groups_flatten]
+
+theorem WeakD.eq_of_no_deadline {T : Int} {v v0 : List Obs} (h : WeakD T v v0)
+    (hn : ∀ o0 ∈ v0, ∀ k : Nat, o0.t ≠ off T (k + 1)) : v = v0 := by
+  induction h with
+  | nil => rfl
+  | @cons o o0 v v0 _ _ hk _ ih =>
+    rw [ih (fun x hx => hn x (List.mem_cons_of_mem _ hx))]
+    rcases hk with rfl | ⟨_, k, hk⟩
+    · rfl
+    · exact absurd hk (hn o0 (List.mem_cons_self ..) k)
+
+theorem runCall_no_coincidence {T n : Int} (hT : 0 < T) (evs : List Event) (H : Int) (harr : ArrivalsOnly evs)
+    (hn : ∀ o ∈ scriptObs evs, ∀ k : Nat, o.t ≠ off T (k + 1)) (r : Result)
+    (hr : r ∈ runCall T n evs H) : r = runObs T n (scriptObs evs) H := by
+  obtain ⟨v, rfl, hv⟩ := runCall_views hT evs H harr r hr
+  have hw := hv.weakD
+  rw [groups_flatten] at hw
+  rw [hw.eq_of_no_deadline hn]
+
+theorem groupViews_ne (t : Int) (b : Bool) (g : Group) (h : ∀ x ∈ g, isArrival x.2 = true) :
+    ∃ w, w ∈ groupViews t b g := by
+  unfold groupViews
+  rw [mergeOrders_arrivals g h]
+  cases b with
+  | false => exact ⟨toObs t true g, by simp⟩
+  | true =>
+    refine ⟨toObs t false (g.take 0) ++ toObs t true (lose 0 (g.drop 0)), ?_⟩
+    simp only [if_true, List.flatMap_cons, List.flatMap_nil, List.append_nil, List.mem_flatMap, List.mem_map,
+      List.mem_range]
+    exact ⟨0, by omega, 0, by omega, rfl⟩
+
+theorem foldGroups_ne (n : Int) (gs : List (Int × Bool × Group))
+    (harr : ∀ g ∈ gs, ∀ x ∈ g.2.2, isArrival x.2 = true) :
+    ∀ sts : List CState, sts ≠ [] →
+      gs.foldl (fun sts (g : Int × Bool × Group) => stepGroup n g.1 g.2.1 g.2.2 sts) sts ≠ [] := by
+  induction gs with
+  | nil => intro sts h; exact h
+  | cons g gs ih =>
+    intro sts h
+    refine ih (fun g' hg' => harr g' (List.mem_cons_of_mem _ hg')) _ ?_
+    obtain ⟨st, hst⟩ := List.exists_mem_of_ne_nil sts h
+    obtain ⟨w, hw⟩ := groupViews_ne g.1 (g.2.1 && deadlineAt n st g.1) g.2.2 (harr g (List.mem_cons_self ..))
+    have : runFrom n st w ∈ stepGroup n g.1 g.2.1 g.2.2 sts := by
+      unfold stepGroup
+      rw [mem_dedup, List.mem_flatMap]
+      exact ⟨st, hst, List.mem_map.2 ⟨w, hw, rfl⟩⟩
+    exact List.ne_nil_of_mem this
+
+theorem dedup_all_eq {β : Type} [DecidableEq β] (a : β) : ∀ l : List β, (∀ x ∈ l, x = a) → l ≠ [] → dedup l = [a] := by
+  intro l
+  induction l with
+  | nil => intro _ h; exact absurd rfl h
+  | cons b l ih =>
+    intro h _
+    have hb : b = a := h b (List.mem_cons_self ..)
+    subst hb
+    have : dedup (b :: l) = addNew b (dedup l) := rfl
+    rw [this]
+    cases l with
+    | nil => simp [dedup, addNew]
+    | cons c l =>
+      rw [ih (fun x hx => h x (List.mem_cons_of_mem _ hx)) (by simp)]
+      simp [addNew]
+
+/-- a script on which nothing races allows exactly one result -/
+theorem runCall_singleton {T n : Int} (evs : List Event) (H : Int) (harr : ArrivalsOnly evs) (r0 : Result)
+    (hall : ∀ r ∈ runCall T n evs H, r = r0) : runCall T n evs H = [r0] := by
+  have hne := foldGroups_ne n (groups evs) (groups_arrivals evs harr) [begin T n] (by simp)
+  unfold runCall at hall ⊢
+  simp only at hall ⊢
+  refine dedup_all_eq r0 _ (fun x hx => hall x ((mem_dedup x _).2 hx)) ?_
+  intro h
+  exact hne (List.map_eq_nil_iff.1 h)
+
+/-! ### racing scripts: when no response is returned -/
+
+theorem scriptObsFrom_kinds (clk : Int) (i : Nat) (es : List Event) (h : ArrivalsOnly es) :
+    ∀ o ∈ scriptObsFrom clk i es, o.kind = .irr ∨ o.kind = .rej ∨ o.kind = .acc := by
+  induction es generalizing clk i with
+  | nil => intro o ho; simp [scriptObsFrom] at ho
+  | cons e es ih =>
+    intro o ho
+    simp only [scriptObsFrom, List.mem_cons] at ho
+    rcases ho with rfl | ho
+    · have := h e (List.mem_cons_self ..)
+      cases hk : e.kind <;> simp [hk, isArrival] at this <;> simp [obsKind]
+    · exact ih _ _ (fun e' he' => h e' (List.mem_cons_of_mem _ he')) o ho
+
+theorem WeakD.mem_kind {T : Int} {v v0 : List Obs} (h : WeakD T v v0) :
+    ∀ o ∈ v, ∃ o0 ∈ v0, o.kind = o0.kind ∨ o.kind = .irr := by
+  induction h with
+  | nil => intro o ho; cases ho
+  | @cons o o0 v v0 _ _ hk _ ih =>
+    intro x hx
+    rcases List.mem_cons.1 hx with rfl | hx
+    · refine ⟨o0, List.mem_cons_self .., ?_⟩
+      rcases hk with rfl | ⟨hk, _⟩
+      · exact Or.inl rfl
+      · exact hk
+    · obtain ⟨y, hy, hxy⟩ := ih x hx
+      exact ⟨y, List.mem_cons_of_mem _ hy, hxy⟩
+
+theorem WeakD.mem_of_no_deadline {T : Int} {v v0 : List Obs} (h : WeakD T v v0) :
+    ∀ o0 ∈ v0, (¬ ∃ k : Nat, o0.t = off T (k + 1)) → o0 ∈ v := by
+  induction h with
+  | nil => intro o ho; cases ho
+  | @cons o o0 v v0 _ _ hk _ ih =>
+    intro x hx hnd
+    rcases List.mem_cons.1 hx with rfl | hx
+    · rcases hk with rfl | ⟨_, hd⟩
+      · exact List.mem_cons_self ..
+      · exact absurd hd hnd
+    · exact List.mem_cons_of_mem _ (ih x hx hnd)
+
+/-- **Racing scripts: when the result is not a response** (no-response error, or
+still running), every acceptable datagram of the script either fell exactly on a
+retransmission deadline or came at or after the budget. -/
+theorem runCall_noresp {T n : Int} (hT : 0 < T) (evs : List Event) (H : Int) (harr : ArrivalsOnly evs)
+    (r : Result) (hr : r ∈ runCall T n evs H) (hno : ∀ t i, r.ret ≠ some (t, .resp i)) :
+    ∀ o0 ∈ scriptObs evs, o0.kind = .acc →
+      (∃ k : Nat, o0.t = off T (k + 1)) ∨ (0 ≤ n ∧ off T n.toNat ≤ o0.t) := by
+  obtain ⟨v, rfl, hv⟩ := runCall_views hT evs H harr r hr
+  have hw := hv.weakD
+  rw [groups_flatten] at hw
+  have hov := hw.ordered (scriptObs_ordered evs)
+  intro o0 ho0 hacc
+  by_cases hd : ∃ k : Nat, o0.t = off T (k + 1)
+  · exact Or.inl hd
+  · right
+    refine Classical.byContradiction fun hb => ?_
+    have hb' : n < 0 ∨ o0.t < off T n.toNat := by omega
+    have hmem := hw.mem_of_no_deadline o0 ho0 hd
+    have hterm : isTerminal o0 = true := by simp [isTerminal, hacc]
+    cases hf : v.find? isTerminal with
+    | none =>
+      have := List.find?_eq_none.1 hf o0 hmem
+      rw [hterm] at this; exact this rfl
+    | some o' =>
+      obtain ⟨hto, pre, post, heq, hpre⟩ := List.find?_eq_some_iff_append.1 hf
+      have hle : o'.t ≤ o0.t := by
+        rw [heq] at hmem hov
+        rcases List.mem_append.1 hmem with h | h
+        · have := hpre o0 h; rw [hterm] at this; simp at this
+        · rcases List.mem_cons.1 h with rfl | h
+          · exact Int.le_refl _
+          · exact (List.pairwise_cons.1 (List.pairwise_append.1 hov.2).2.1).1 o0 h
+      have hret := (first_terminal (n := n) hT v H hov).1 o' hf (by omega)
+      obtain ⟨y, hy, hk⟩ := hw.mem_kind o' (by rw [heq]; simp)
+      have hyk := scriptObsFrom_kinds 0 0 evs harr y hy
+      have hacc' : o'.kind = .acc := by
+        have ht := (isTerminal_iff o').1 hto
+        unfold Terminal at ht
+        rcases hk with hk | hk
+        · rcases hyk with h | h | h
+          · rw [hk, h] at ht; simp at ht
+          · rw [hk, h] at ht; simp at ht
+          · rw [hk, h]
+        · rw [hk] at ht; simp at ht
+      refine hno o'.t o'.tag ?_
+      rw [hret]; simp [terminalOutcome, hacc']
+
 end Dhcp.Client.Refine
